@@ -143,7 +143,8 @@ Drift(X) ==
   IN  IF a # <<>> THEN <<"whole">> \o a ELSE IF b # <<>> THEN <<"chunks">> \o b ELSE <<>>
 
 (***************************************************************************)
-(* Known findings (narrow signatures; ids of known_findings.json)          *)
+(* OPEN known findings (narrow signatures; ids of known_findings.json).    *)
+(* Fixed findings have no signature here: a relapse is a VIOLATION.        *)
 (***************************************************************************)
 \* KF-C12-1: MIPS32 `jr $ra` (the return idiom, decoded as a return by the
 \* disassembler) is given an indirect branch edge, not a return edge.
@@ -154,13 +155,6 @@ KF_C12_1(V) ==
         V.toks[i].k = "ret" /\ ObservedOut(V, i) = {EL(FreshNode, "branch", FALSE, FALSE)}
   /\ \A e \in V.E : e.ty # "ft" =>
         \E i \in Idx(V) : V.toks[i].k \in Terminators /\ V.pos[i].sec = e.s.sec /\ End(V, i) = e.s.o + e.s.n
-\* KF-C12-2: `.ascii ""` (an empty string literal) trips an assertion in
-\* _remove_empty_blocks instead of assembling to nothing.
-KF_C12_2(V, run) ==
-  /\ run.exc = "AssertionError" /\ run.stage = "finalize"
-  /\ \E i \in Idx(V) : V.toks[i].k = "ascii" /\ V.toks[i].n = 0
-  /\ AllowedRefusals(V) \subseteq {"UnsupportedAssemblyError"}
-
 \* KF-C13-1: a patch one of whose sections is empty (text: labels only,
 \* directives only, or contents for other sections only; another section:
 \* switched to but left without contents) makes the rewrite crash.
@@ -169,25 +163,11 @@ KF_C13_1(X) ==
   /\ \A i \in DOMAIN X.t.rw :
         X.t.rw[i].exc \in RwAllowed(X, X.t.rw[i]) \cup {"AssertionError", "IndexError"}
 
-\* KF-C12-3: two alignment requests at one position: the later, weaker one
-\* overwrites the earlier, stricter one.
-KF_C12_3(V) == AlignOverwritten(V)
-
 KfTags(X, clause) ==
   (IF clause = "C12_EdgeShape"
       /\ \A i \in DOMAIN Runs(X) : Runs(X)[i].V.exc = "" =>
             (C12_EdgeShape(Runs(X)[i].V) \/ KF_C12_1(Runs(X)[i].V))
    THEN {"KF-C12-1"} ELSE {})
-  \cup
-  (IF clause = "C12_Alignment"
-      /\ \A i \in DOMAIN Runs(X) : Runs(X)[i].V.exc = "" => KF_C12_3(Runs(X)[i].V)
-   THEN {"KF-C12-3"} ELSE {})
-  \cup
-  (IF clause \in {"C12_Completes", "C13_Completes"}
-      /\ \A i \in DOMAIN Runs(X) :
-            (Completes(Runs(X)[i].V) \/ KF_C12_2(Runs(X)[i].V, Runs(X)[i].r))
-      /\ (clause = "C13_Completes" /\ RwRuns(X) => RwCompletes(X))
-   THEN {"KF-C12-2"} ELSE {})
   \cup
   (IF clause = "C13_Completes" /\ Completes(X.Vc) /\ KF_C13_1(X) THEN {"KF-C13-1"} ELSE {})
 
